@@ -216,13 +216,18 @@ let handle (line : string) : string =
   | L [A "numstrok"; A h; v] -> if M.num_string_ok (M.f_of_bits (z_of_hex h)) (str_of_sx v) then "B 1" else "B 0"
   | _ -> "?"
 
+let slowlog = (try Sys.getenv "XMODEL_SLOW" <> "" with Not_found -> false)
+
 let () =
   try
     while true do
       let line = input_line stdin in
       if line = "(sync)" then flush stdout
       else begin
+        let t0 = if slowlog then Sys.time () else 0.0 in
         let out = try handle line with e -> "! " ^ Printexc.to_string e in
+        if slowlog && Sys.time () -. t0 > 0.02 then
+          prerr_endline (Printf.sprintf "SLOW %.3f %s" (Sys.time () -. t0) (String.sub line 0 (min 300 (String.length line))));
         print_string out; print_char '\n'
       end
     done
